@@ -43,11 +43,25 @@ type Node struct {
 // Rat returns the exact value of a number node. Exponents are bounded by the
 // generators (|exp| <= 9999) so this stays cheap.
 func (n *Node) Rat() *big.Rat {
+	if n.HugeExp() {
+		return nil
+	}
 	r, ok := new(big.Rat).SetString(n.Lit)
 	if !ok {
 		panic("ref: bad number literal " + n.Lit)
 	}
 	return r
+}
+
+// HugeExp reports an exponent of more than 5 digits (after leading zeros): exact
+// rational arithmetic is not attempted for those (only mutation produces them).
+func (n *Node) HugeExp() bool {
+	i := strings.IndexAny(n.Lit, "eE")
+	if i < 0 {
+		return false
+	}
+	e := strings.TrimLeft(strings.TrimLeft(n.Lit[i+1:], "+-"), "0")
+	return len(e) > 5
 }
 
 // PlainInt reports whether the literal is -?digits with no fraction or exponent.
